@@ -26,7 +26,7 @@ fn main() {
         level: "exploration",
         rule: "a program is non-trivial when it contains a rollback for which the read battery just before the rollback differs from the battery recorded at the target checkpoint in >= 2 of the 3 engines (relational, graph, vector), or when it performs a second rollback; distinct = distinct generated program (hash of its JSON)",
         assumptions: vec![
-            "router built as in the router's own checkpoint tests: with_shared_store + init_blob + init_checkpoint_with_config{max_checkpoints 2..4, auto_checkpoint off, interactive_confirm off}; statements go through execute_parsed; the query cache is not initialised; part `auto` turns auto_checkpoint on and asserts only the retention limit and the list order after every statement",
+            "router built as in the router's own checkpoint tests: with_shared_store + init_blob + init_checkpoint_with_config{max_checkpoints 2..4, auto_checkpoint off, interactive_confirm off}; statements go through execute_parsed; the query cache is initialised when the checkpoint limit is odd; part `auto` turns auto_checkpoint on and asserts only the retention limit and the list order after every statement",
             "creation times of checkpoints have one-second resolution in the product: part `rollback` never exceeds the retention limit, part `retention` puts every CHECKPOINT into its own wall-clock second (the harness sleeps), so the expected retention order never depends on timing",
             "generated statements avoid the parser limitations recorded under C15 (negative literals, contextual keywords as column names)",
             "similarity scores are compared with tolerance 1e-5, everything else exactly (rows, nodes, edges as multisets)",
